@@ -187,5 +187,5 @@ package rules
 //@   ensures forall i int :: 0 <= i && i < len(res0) ==> netWanted(res0[i], ipVersion) && !(isNegated && netCatchAll(res0[i], ipVersion))
 //@   ensures len(mixedCIDRs) > 0 ==> (res1 ==> len(res0) == 0)
 //@   ensures len(mixedCIDRs) > 0 && !res1 ==> len(res0) > 0
-//@   loop 1 invariant -1 <= rangeindex && rangeindex < len(mixedCIDRs) && len(mixedCIDRs) > 0 && wantV6 == (ipVersion == 6) && filteredAll == (len(filtered) == 0) && len(filtered) <= cap(filtered) && (len(filtered) > 0 ==> fresh(filtered))
+//@   loop 1 invariant -1 <= rangeindex && rangeindex < len(mixedCIDRs) && len(mixedCIDRs) > 0 && wantV6 == (ipVersion == 6) && filteredAll == (len(filtered) == 0) && len(filtered) <= cap(filtered) && (cap(filtered) > 0 ==> fresh(filtered))
 //@   loop 1 invariant forall i int :: 0 <= i && i < len(filtered) ==> netWanted(filtered[i], ipVersion) && !(isNegated && netCatchAll(filtered[i], ipVersion))
